@@ -15,7 +15,7 @@ CLAIMED = {
             'save path of every archive scope; one common entry-point protocol (context, archive, serialize, Finalize) in all LoadObject/SaveObject '
             'overloads; XML node shapes emitted by the save side are accepted by the load side (childless element = empty value; recorded known '
             'findings); MsgPack writer-emits subset-of reader-accepts over the decision tables of both codecs; JSON rendering result consumed and '
-            'stream source encoding named; a value the stream reader delivers in chunks is assembled in order (inductive step of the chunk loop); the configured CSV separator reaches every function that decides with it; no counter narrower than 32 bits is updated in a loop; every string that enters the RapidJSON DOM on the save side is copied (non-owning nodes only for literals and lookups).',
+            'stream source encoding named; a value the stream reader delivers in chunks is assembled in order (inductive step of the chunk loop); the configured CSV separator reaches every function that decides with it; no counter narrower than 32 bits is updated in a loop; every string that enters the RapidJSON DOM on the save side is copied (non-owning nodes only for literals and lookups). The binary timestamp layout chosen by both MsgPack writers holds the whole value over all (seconds, nanoseconds) cells.',
             'cast-kind audit on the typed AST + call protocol rule + writer/reader decision-table inclusion (abstract interpretation)', '§5 C01'),
     'C02': ('other',
             'Structural necessary conditions of "no input can crash or exhaust the loader": no escape to std::terminate on load paths, no '
@@ -28,7 +28,7 @@ CLAIMED = {
             'seekg after EOF is preceded by clear(), single-value wrappers store only on a loaded path and return that result, validators get '
             'the real result, the MsgPack object scope keeps item accounting (keys+values consumed == 2 x pairs accounted, modulo the pending '
             'key) on every CFG path with helper summaries, and the stream window keeps its logical position; the CSV readers select the column whose header equals the key (execution over a header row '
-            'holding every prefix relation). A key given as a character array is compared as its null-terminated text. Which value a MsgPack key maps to is not decided.',
+            'holding every prefix relation). A key given as a character array is compared as its null-terminated text. Which value a MsgPack key maps to is not decided. CSV column names are read through the unescaping cell path in both readers; a character-array key is compared as a whole (no prefix window).',
             'CFG path enumeration with typestate (pending key) and balance events, interprocedural helper summaries; linear window analysis', '§5 C03'),
     'C04': ('other',
             'Value-flow of arithmetic stores by clang cast kinds and types in every instantiated value loader (no narrowing / sign-changing / '
@@ -46,12 +46,12 @@ CLAIMED = {
             'Abstract interpretation of both MsgPack writers over value/length intervals partitioned at every compared constant, against an '
             'oracle written from the MessagePack specification: format code, length-field width, minimal encoded size, big-endian payload '
             'of the argument itself, oversize => exception, timestamp headers and field layout; twin equality of the two writers; the '
-            'seconds/nanoseconds split of time values decided over linear forms (no overflow, 0 <= ns < 10^9, sec*10^9+ns exact); every Open*Scope of the write scopes emits the header of its own family; the chaining operators of the field counter return *this by reference, its arithmetic counts every class once (linear forms), and every keyed save path writes the entry it counted. Exhaustive over the partition cells; payload bit patterns of floats are not decided.',
+            'seconds/nanoseconds split of time values decided over linear forms (no overflow, 0 <= ns < 10^9, sec*10^9+ns exact); every Open*Scope of the write scopes emits the header of its own family; the chaining operators of the field counter return *this by reference, its arithmetic counts every class once (linear forms), and every keyed save path writes the entry it counted. Exhaustive over the partition cells; payload bit patterns of floats are not decided. Byte sequences (C arrays and vectors of char / signed char / unsigned char, keyed, unkeyed and at the root) are handed to the binary scope in every instantiation.',
             'decision tables by abstract interpretation over an interval partition, compared with a hand-written spec oracle', '§5 C06'),
     'C07': ('other',
             'Abstract interpretation of both MsgPack readers over the exact domain of all 256 first bytes against an oracle written from the '
             'MessagePack specification: accept sets, length-field and payload widths, signedness, embedded values, ext type-byte offsets, '
-            'classification table, and skip extents for every first byte. Exhaustive over the first-byte domain; payload VALUES are not decided.',
+            'classification table, and skip extents for every first byte. Exhaustive over the first-byte domain; payload VALUES are not decided. Byte sequences of all three byte element types are loaded through the binary scope in every instantiation.',
             'decision tables by abstract interpretation over a finite exact domain, compared with a hand-written spec oracle', '§5 C07'),
     'C08': ('other',
             'Conformance of the emitted text is delegated to rapidjson/pugixml; decided are the adapter obligations around them: Accept() result '
@@ -62,12 +62,12 @@ CLAIMED = {
             'Symbolic linear evaluation of every view built from a CSV cell descriptor (exactly [Offset, Offset+Size) in all four ReadValue '
             'bodies), abstract interpretation of the field-quoting decision over all byte values x separators, presence of the row-width check '
             'on every row kind (execution over row states), separator validation before construction, and the transition table of the field scanner of both readers '
-            'against RFC 4180 (one generic iteration per character class x quotes seen x last CR x end of input); separator forwarding; the stream scanner reads decoded text only.',
+            'against RFC 4180 (one generic iteration per character class x quotes seen x last CR x end of input); separator forwarding; the stream scanner reads decoded text only. One separator per line iff the line already holds a field, header and row alike, in both writers; column names read through the unescaping path.',
             'dimension typing by linear evaluation + decision table of the quoting predicate + must-pass-through checks', '§5 C09'),
     'C10': ('other',
             'Sibling cross-check of the duplicated memory/stream implementations: equal decision tables of the two MsgPack readers for all '
             'methods x 256 first bytes; writer tables; CSV twins compared cell by cell (row states, column selection, scanner transitions), cell reads do not write the row, '
-            'chunked strings are assembled in order, stream-positioning discipline (whole error state cleared before a backward seek), length widths of both reader copies, separator forwarding, no look-ahead of the CSV stream scanner into text not decoded yet, equal parser options of the memory and stream constructors of the JSON and XML adapters and equal validation of string bytes (one recorded known finding: JSON validates only stream input). Decides agreement of the copies, not behaviour at every chunk alignment.',
+            'chunked strings are assembled in order, stream-positioning discipline (whole error state cleared before a backward seek), length widths of both reader copies, separator forwarding, no look-ahead of the CSV stream scanner into text not decoded yet, equal parser options of the memory and stream constructors of the JSON and XML adapters and equal validation of string bytes (one recorded known finding: JSON validates only stream input). Decides agreement of the copies, not behaviour at every chunk alignment. Cells with a lone quote inside a quoted field are unescaped alike by both readers; column names are unescaped by both readers.',
             'twin comparison of decision tables / statement skeletons of sibling implementations', '§5 C10'),
     'C11': ('other',
             'Abstract interpretation of the cross-width transcoders over the scalar-value / code-unit classes of the Unicode standard: for '
@@ -78,7 +78,7 @@ CLAIMED = {
     'C12': ('other',
             'Same interpreter over the ill-formed classes (Table 3-7 complements, lone/misordered surrogates, UTF-32 surrogates and values '
             'above U+10FFFF): nothing decoded is emitted, the error is counted once and marked or reported at its start; every input read is '
-            'bounds-guarded and every iteration advances; the configured policy and error mark are forwarded by every layer that holds them (no fallback to a default argument); callers that report failure by throwing do so for every result code but Success; the encoded stream writer writes and reports Success only after a successful Encode. First sequence of the input only.',
+            'bounds-guarded and every iteration advances; the configured policy and error mark are forwarded by every layer that holds them (no fallback to a default argument); callers that report failure by throwing do so for every result code but Success; the encoded stream writer writes and reports Success only after a successful Encode. First sequence of the input only. A tail shorter than one code unit at the end of an encoded stream is replaced or reported; the CSV archive hands the configured error policy to its encoded stream reader and writer.',
             'decision tables by abstract interpretation over interval classes + iterator typestate (guard domination)', '§5 C12'),
     'C14': ('other',
             'Calendar correctness and the exact print/parse round trip are NOT decided (integer arithmetic over 2^64 instants). Decided is one '
@@ -103,7 +103,7 @@ CLAIMED = {
     'C17': ('other',
             'Validator plumbing decided structurally per instantiation (fold order over all validators, message forwarding, grouping/append, '
             'grouping/append and cap decided by executing AddValidationError over a map model, final throw iff non-empty map, entry-point protocol, wrapper loaders report not-loaded whenever they leave the wrapper empty) and the built-in validators decided by abstract interpretation '
-            'over the finite orderings of value/size vs bounds x loaded. Path strings and the Email/Phone grammars are not decided.',
+            'over the finite orderings of value/size vs bounds x loaded. Path strings and the Email/Phone grammars are not decided. A field counts as loaded only under its own key: the MsgPack key comparison for character-array keys is whole-key equality.',
             'AST rules per instantiation + decision tables over finite orderings', '§5 C17'),
     'C18': ('other',
             'Every container/wrapper loader carries its stale-state eliminator on every normal CFG path of every load instantiation '
@@ -117,7 +117,7 @@ CLAIMED = {
             'and longer) with every probe read inside the view; every switch over UtfType maps like-named traits; the writer emits the BOM '
             'iff configured, for the configured encoding, with size()*sizeof(unit) bytes; the stream reader\'s window arithmetic over symbolic '
             'pointers (invariant, refill/squeeze bounds, no overlapping memcpy) and end-of-file progress (Success at eof leaves an empty '
-            'window, so no caller loop can spin); the istream overload of DetectEncoding repositions the stream relative to its entry position; the CSV stream scanner reads decoded text only. Equality of decoded and written text is not decided.',
+            'window, so no caller loop can spin); the istream overload of DetectEncoding repositions the stream relative to its entry position; the CSV stream scanner reads decoded text only. Equality of decoded and written text is not decided. JSON writers over an encoded stream are instantiated with the run-time target encoding, formatted and compact alike.',
             'abstract interpretation over byte-class / linear-constraint domains (Fourier-Motzkin entailment) + AST structural rules', '§5 C13'),
     'C19': ('proof',
             'Exhaustive audit of shared state: every static-storage object of the library is immutable or a tabled registry written only '
